@@ -11,15 +11,16 @@ import json, os, random, re, shutil, sys, time, hashlib
 import vlib
 from vlib import VERIF
 
-FAMILIES = {"C13": [("c13", 5000, 60000)], "C14": [("c14set", None, None), ("c14list", None, None)], "C19": [("c19", None, None)]}
+SHAPES = [("get", None, None), ("set", None, None), ("sub", 6000, None), ("admin", 4000, None)]
+FAMILIES = {"C12": [], "C13": [("c13", 5000, 60000)], "C14": [("c14set", None, None), ("c14list", None, None)], "C19": [("c19", None, None)]}
 
 
 def log(*a):
     print(*a, file=sys.stderr, flush=True)
 
 
-def enumerate_cases(specdir, fam):
-    out, rc, wall = vlib.run_tlc(specdir, "NbCases.tla", "Cases_%s.cfg" % fam, workers=4, heap="6g", timeout=1800, metatag="nbc")
+def enumerate_cases(specdir, fam, module="NbCases.tla", cfg=None, args=(), workers=4):
+    out, rc, wall = vlib.run_tlc(specdir, module, cfg or ("Cases_%s.cfg" % fam), args=args, workers=workers, heap="6g", timeout=1800, metatag="nbc")
     bad = vlib.tlc_failed(out)
     if bad or rc != 0:
         raise vlib.Inconclusive("case enumeration %s failed (%s):\n%s" % (fam, bad, out[-2000:]))
@@ -82,8 +83,16 @@ def check(prop, tier, replay_file=None):
         if replay_file:
             allcases = [json.load(open(replay_file))["case"]]
         else:
-            for fam, nq, nt in FAMILIES[prop]:
-                cases, gen, dist, wall = enumerate_cases(specdir, fam)
+            fams = [(f, nq, nt, "NbCases.tla", None, ()) for f, nq, nt in FAMILIES[prop]]
+            if prop == "C12":
+                # exhaustive shape cores, the C19 message sequences, and a random sample of the full shape products
+                fams = [(f, nq, nt, "Shapes.tla", "Shapes_%s.cfg" % f, ()) for f, nq, nt in SHAPES]
+                fams.append(("c19", 3000, None, "NbCases.tla", None, ()))
+                nrand = 6000 if tier == "quick" else 150000
+                fams.append(("random", None, None, "Shapes.tla", "Shapes_random.cfg", ("-simulate", "num=1", "-depth", str(nrand), "-seed", str(sd))))
+            for fam, nq, nt, module, cfg, targs in fams:
+                cases, gen, dist, wall = enumerate_cases(specdir, fam, module, cfg, targs, workers=1 if targs else 4)
+                cases = [c for c in cases if c.get("shape", {}).get("rpc") != "none"]
                 total = len(cases)
                 n = nq if tier == "quick" else nt
                 if n and len(cases) > n:
@@ -117,11 +126,14 @@ def check(prop, tier, replay_file=None):
             rp = vlib.save_replay(prop, "nb-" + hashlib.sha1((json.dumps(L["case"], sort_keys=True) + c).encode()).hexdigest()[:10],
                                   dict(property=prop, clause=c, case=L["case"], observed={k: v for k, v in L.items() if k != "case"}))
             print("VIOLATION property=%s replay=%s clause=%s case=%s" % (prop, rp, c, json.dumps(L["case"])[:300]))
-        ev = dict(property_id=prop, tier=tier, seed=sd, level="model_checking", wall_s=round(time.time() - t0, 1), violations=len(real),
+        ev = dict(property_id=prop, tier=tier, seed=sd, level="exploration" if prop == "C12" else "model_checking", wall_s=round(time.time() - t0, 1), violations=len(real),
                   coverage=dict(states=max(1, sum(e["distinct"] for e in explored)), transitions=max(1, sum(e["generated"] for e in explored)),
                                 traces_validated_against_impl=len(obs), exploration=explored,
                                 handler_refuses_more_than_documented=stricter,
                                 outcomes=dict(accepted=sum(1 for o in obs if o["ok"]), refused=sum(1 for o in obs if not o["ok"]), panics=sum(1 for o in obs if o["panic"])),
+                                evaluations=len(obs),
+                                distinct_nontrivial=len({json.dumps(o["case"], sort_keys=True) for o in obs if o["answered"]}),
+                                rule="cases are the elements of the TLC-enumerated case space (spec/nb), distinct by construction; non-trivial = the real handler was invoked and answered",
                                 exhaustive=all(e["cases"] == e["run_on_real_code"] for e in explored) if explored else False,
                                 known_findings={k: n for k, (_, n) in hits.items()},
                                 samples=[o["case"] for o in obs[:3]]),
